@@ -94,6 +94,10 @@ def build_fnmod(cid, rng):
                 f.vis = "pub"
             L.append(f.source("    "))
         L.append("}")
+        if rng.random() < 0.5:
+            # the mock API of a module is a name *inside* that module: the enclosing scope is free to use the same name
+            L.append(rng.choice(["#[allow(dead_code)] pub struct SubjMock;", "#[allow(dead_code, non_snake_case)] pub mod SubjMock { pub fn unrelated() {} }",
+                                 "#[allow(unused_imports)] pub use self::subject_mod::SubjMock as SubjMockHere; #[allow(dead_code)] pub enum SubjMock {}"]))
         api = lambda f: "subject_mod::SubjMock::%s" % f.name
         prefix = "subject_mod::"
     D = ["pub fn run() {"]
